@@ -460,20 +460,34 @@ def check_list_union(ver, kind, spec, st):
 
 COMBO_PATTERNS = [None, r'[0-9]+', r'[a-z]+', r'.{1,3}', r'1.*', r'true|false|[0-9]', r'[0-9]{4}-[0-9]{2}-[0-9]{2}', r'[^1]*']
 COMBO_MEMBERS = ['int', 'boolean', 'date', 'NCName', 'decimal']
-COMBO_POOL = ['1', '01', 'true', 'false', 'abc', '2000-01-01', '12345', 'x1', '-1', 'ab', '1.5', '10', 'zz9', '0']
+COMBO_POOL = ['1', '01', 'true', 'false', 'abc', '2000-01-01', '12345', 'x1', '-1', 'ab', '1.5', '10', 'zz9', '0',
+              ' 12', '12 ', ' true ', '  ab ', '1  2', ' x1']
+
+
+def _pats(pat):
+    """patterns of the restriction steps, innermost first (a spec holds None, one pattern or a list of two)."""
+    return [] if pat is None else [pat] if isinstance(pat, str) else [p for p in pat if p is not None]
 
 
 def combo_ref(spec, text, v11):
     """Reference verdict of one value of a combo type (no surrounding whitespace in COMBO_POOL)."""
     kind, members, pat = spec
-    items = text.split(' ') if kind == 'lu' else [text]
+    # every member of COMBO_MEMBERS has whiteSpace=collapse, so the normalised literal of a union value is the
+    # collapsed text whichever member validates it; an atomic restriction normalises by its base
+    if kind == 'lu':
+        items = text.split()
+    elif kind == 'a' and members[0] == 'string':
+        items = [text]
+    else:
+        items = [dt.normalize(text, dt.WS_COLLAPSE)]
     for it in items:
         oks = [dt.check(m, it, v11)[0] for m in members]
         if any(o is None for o in oks):
             return None
         if not any(oks):
             return False
-        if pat is not None and not _re.fullmatch(pat, it):
+        # patterns of different derivation steps are ANDed
+        if any(not _re.fullmatch(p, it) for p in _pats(pat)):
             return False
     return True
 
@@ -482,14 +496,19 @@ def combo_xsd(specs):
     parts = []
     for i, (kind, members, pat) in enumerate(specs):
         mt = ' '.join('xs:' + m for m in members)
-        p = '<xs:pattern value="%s"/>' % escape(pat) if pat is not None else ''
+        ps = ['<xs:pattern value="%s"/>' % escape(x) for x in _pats(pat)]
+        top = 'T' if kind in ('a', 'u') else 'I'
         if kind == 'a':
-            parts.append('<xs:simpleType name="T%d"><xs:restriction base="xs:%s">%s</xs:restriction></xs:simpleType>' % (i, members[0], p))
+            base = 'xs:' + members[0]
         else:
             parts.append('<xs:simpleType name="U%d"><xs:union memberTypes="%s"/></xs:simpleType>' % (i, mt))
-            inner = ('<xs:simpleType name="%s%d"><xs:restriction base="U%d">%s</xs:restriction></xs:simpleType>'
-                     % ('T' if kind == 'u' else 'I', i, i, p))
-            parts.append(inner)
+            base = 'U%d' % i
+        if len(ps) == 2:       # two restriction steps, each with its own pattern
+            parts.append('<xs:simpleType name="S%d"><xs:restriction base="%s">%s</xs:restriction></xs:simpleType>' % (i, base, ps[0]))
+            base, ps = 'S%d' % i, ps[1:]
+        parts.append('<xs:simpleType name="%s%d"><xs:restriction base="%s">%s</xs:restriction></xs:simpleType>'
+                     % (top, i, base, ''.join(ps)))
+        if True:
             if kind == 'lu':
                 parts.append('<xs:simpleType name="T%d"><xs:list itemType="I%d"/></xs:simpleType>' % (i, i))
     decl = ''.join('<xs:element name="v%d" type="T%d" minOccurs="0" maxOccurs="unbounded"/>' % (i, i) for i in range(len(specs)))
@@ -513,7 +532,7 @@ def check_combo(ver, specs, values, attrs, st):
     if any(r is None for r in refs + arefs):
         st.cls('unspecified')
         return out
-    if len(values) + len(attrs) >= 2 and any(sp[2] is not None and sp[0] != 'a' for sp in specs):
+    if len(values) + len(attrs) >= 2 and any(_pats(sp[2]) and sp[0] != 'a' for sp in specs):
         st.nt((ver, str(specs), str(values), str(attrs)))
     doc = '<r%s>%s</r>' % (''.join(' a%d=%s' % (i, quoteattr(t)) for i, t in attrs),
                            ''.join('<v%d>%s</v%d>' % (i, escape(t), i) for i, t in values))
@@ -628,9 +647,12 @@ def run_shard(desc):
         n = 1500 if tier == 'thorough' else 150
         spec = hst.one_of(
             hst.tuples(hst.sampled_from(['u', 'u', 'lu']), hst.lists(hst.sampled_from(COMBO_MEMBERS), min_size=1, max_size=3,
-                                                                 unique=True), hst.sampled_from(COMBO_PATTERNS)),
+                                                                 unique=True),
+                       hst.one_of(hst.sampled_from(COMBO_PATTERNS),
+                                  hst.lists(hst.sampled_from(COMBO_PATTERNS[1:]), min_size=2, max_size=2))),
             hst.tuples(hst.just('a'), hst.lists(hst.sampled_from(['string', 'integer', 'token']), min_size=1, max_size=1),
-                       hst.sampled_from(COMBO_PATTERNS)))
+                       hst.one_of(hst.sampled_from(COMBO_PATTERNS),
+                                  hst.lists(hst.sampled_from(COMBO_PATTERNS[1:]), min_size=2, max_size=2))))
         strat = hst.lists(spec, min_size=2, max_size=4).flatmap(lambda sp: hst.tuples(
             hst.just(sp),
             hst.lists(hst.tuples(hst.integers(0, len(sp) - 1), hst.sampled_from(COMBO_POOL)), min_size=1, max_size=5),
@@ -639,7 +661,7 @@ def run_shard(desc):
 
         def body(v, st_):
             specs, values, attrs = v
-            specs = [(k_, list(m), p) for k_, m, p in specs]
+            specs = [(k_, list(m), list(p) if isinstance(p, (list, tuple)) else p) for k_, m, p in specs]
             st_.sample({'ver': ver, 'types': [str(x) for x in specs], 'values': values, 'attrs': attrs}, cap=3)
             return check_combo(ver, specs, [list(x) for x in values], [list(x) for x in attrs], st_)
         core.hyp_drive(st, PROPERTY, strat, body, n, core.derive_seed(seed, 'C02combo', ver))
